@@ -371,7 +371,10 @@ impl<R: Read> StreamBufferedReader<R> {
 
         while !remaining.is_empty() {
             // Ensure we have data in buffer
-            let available = self.ensure_buffered(remaining.len())?;
+            // Never ask for more than the buffer can ever hold: a full buffer
+            // is handed out first and refilled on the next iteration
+            let needed = cmp::min(remaining.len(), self.config.max_capacity).max(1);
+            let available = self.ensure_buffered(needed)?;
             if available == 0 {
                 break; // End of stream
             }
@@ -422,7 +425,10 @@ impl<R: Read> StreamBufferedReader<R> {
 
         while !remaining.is_empty() {
             // Ensure we have data in buffer
-            let available = self.ensure_buffered(remaining.len())?;
+            // Never ask for more than the buffer can ever hold: a full buffer
+            // is handed out first and refilled on the next iteration
+            let needed = cmp::min(remaining.len(), self.config.max_capacity).max(1);
+            let available = self.ensure_buffered(needed)?;
             if available == 0 {
                 break; // End of stream
             }
